@@ -235,7 +235,10 @@ Inductive view_op :=
 | OSetPhys (n d : Z) | OGetPhys
 | OSetDesc (d : list Z) | OGetDesc
 | OSetBits (k : bkey) (v : Z) | OGetBits (k : bkey)
-| OHeldBits (k : bkey) (v : Z).
+| OHeldBits (k : bkey) (v : Z)
+(* the stored bytes change by a route that is not this accessor: a received PDO frame, the device or
+   a second accessor changing the object, a direct write of the data *)
+| OPoke (bs : list Z).
 
 (* one step: observation and next store (unchanged when the step raises) *)
 Definition unit_or_err {A} (c : cell) (r : res A) (f : A -> cell) : val * cell :=
@@ -253,6 +256,7 @@ Definition step_op (od : odvar) (c : cell) (o : view_op) : val * cell :=
   | OGetDesc => (res_val VS (desc_get g od c), c)
   | OSetBits k v => unit_or_err c (bits_set g s od c k v) (fun x => x)
   | OGetBits k => (res_val VZ (bits_get g od c k), c)
+  | OPoke bs => (VNone, {| c_pre := c_pre c; c_cur := bs; c_post := c_post c |})
   | OHeldBits k v =>
       match bits_held g s od c k v with
       | Ok (c', r) => (res_val VZ r, c')
